@@ -68,4 +68,4 @@ def run(chk):
     n = 800 if tier == 'quick' else 12000
     per = max(1, n // (core.NPROC * (1 if tier == 'quick' else 8)))
     wide = [(chk.seed * 1000 + i, pid, per) for i in range(n // per)]
-    return core.stream(_small, [(row, pid, tier, i) for i, row in enumerate(rows)], _wide, wide, tier, step=400, chunksize=4)
+    return core.stream(_small, [(row, pid, tier, i) for i, row in enumerate(rows)], _wide, wide, tier, step=100, chunksize=4)
